@@ -30,6 +30,24 @@ def apply_edit(root, rel, old, new):
     with open(path, newline='') as f:
         raw = f.read()
     crlf = '\r\n' in raw
+    if isinstance(old, tuple):
+        # ('rename', start_marker, end_marker, name): rename an identifier between two markers (each must occur)
+        import re
+        _, start, end, name = old
+        if crlf:
+            start = start.replace('\n', '\r\n')
+            end = end.replace('\n', '\r\n')
+        i = raw.find(start)
+        j = (len(raw) if end == 'ZZZ-END' else raw.find(end, i + len(start))) if i >= 0 else -1
+        if i < 0 or j < 0:
+            return False
+        region = raw[i:j]
+        region2, n = re.subn(r'(?<![\w.])' + re.escape(name) + r'\b', new, region)
+        if n == 0:
+            return False
+        with open(path, 'w', newline='') as f:
+            f.write(raw[:i] + region2 + raw[j:])
+        return True
     if crlf:
         old = old.replace('\r\n', '\n').replace('\n', '\r\n')
         new = new.replace('\r\n', '\n').replace('\n', '\r\n')
